@@ -12,14 +12,16 @@ ObsText(o) == [c \in Cells |->
                  THEN o.cells[CHOOSE i \in DOMAIN o.cells : o.cells[i][1] = c[1] /\ o.cells[i][2] = c[2]][3]
                  ELSE NoText]
 ObsHas2(o) == \E i \in DOMAIN o.sheets : o.sheets[i] = "S2"
-ObsBook(o) == [text |-> ObsText(o), has2 |-> ObsHas2(o)]
-Proj(b)    == [text |-> b.text, has2 |-> b.has2]
+ObsBook(o) == [text |-> ObsText(o), has2 |-> ObsHas2(o), raw |-> ToSet(o.raw)]
+Proj(b)    == [text |-> b.text, has2 |-> b.has2, raw |-> b.raw]
 ObsMatches(bs, obs) ==
   /\ Len(obs) = Len(bs)
   /\ \A i \in DOMAIN obs : ObsOK(obs[i]) /\ Len(obs[i].cells) = Cardinality({c \in Cells : ObsText(obs[i])[c] # NoText})
                           /\ ObsBook(obs[i]) = Proj(bs[i])
 (* after a mismatch follow the observation *)
-Resync(obs) == [i \in DOMAIN obs |-> [text |-> ObsText(obs[i]), has2 |-> ObsHas2(obs[i]), tbl |-> 1]]
+Resync(obs) == [i \in DOMAIN obs |-> [text |-> ObsText(obs[i]), has2 |-> ObsHas2(obs[i]), tbl |-> 1,
+                                        raw |-> ToSet(obs[i].raw),
+                                        ltab |-> IF i \in DOMAIN books THEN books[i].ltab ELSE {}]]
 
 (* the file as decoded by pydec/sst_view.py *)
 ViewText(v) == [c \in Cells |->
@@ -29,12 +31,24 @@ ViewText(v) == [c \in Cells |->
                      ELSE LET cs == v.sheets[CHOOSE i \in sh : TRUE].cells
                               hit == {k \in DOMAIN cs : cs[k][1] = c[2]}
                           IN IF hit = {} THEN NoText ELSE cs[CHOOSE k \in hit : TRUE][2]]
-ViewOK(v, b) ==
+ViewBase(v, b) ==
   /\ v.wellformed /\ v.bad_index = 0
   /\ (v.has_part <=> v.has_rel) /\ (v.has_part <=> v.has_ct)
+  /\ ViewText(v) = b.text                    \* Decodes
+ViewOK(v, b) ==
+  /\ ViewBase(v, b)
   /\ ToSet(v.present) = Reach(b)             \* OnlyReachable, over every part of the package
   /\ ToSet(v.sst) \subseteq Reach(b)
-  /\ ViewText(v) = b.text                    \* Decodes
+(* C12-KF1: while a lazily opened workbook still has an unloaded sheet, a save carries the whole string
+   table of the loaded file over (raw sheets keep indexes into it), including strings no cell shows any
+   more.  Trigger: some sheet raw and the loaded table holds a string that is not reachable.
+   Outcome: exactly Reach \cup loaded table - nothing else (no string of another workbook object, of
+   an earlier save, or overwritten after loading). *)
+KF1Trigger(b) == b.raw # {} /\ ~(b.ltab \subseteq Reach(b))
+ViewKF1(v, b) ==
+  /\ ViewBase(v, b)
+  /\ ToSet(v.present) = Reach(b) \cup b.ltab
+  /\ ToSet(v.sst) = Reach(b) \cup b.ltab
 
 Expected(e) ==
   CASE e.a = "SetText"     -> [books EXCEPT ![e.w] = SetTextB(@, <<e.sh, e.r>>, e.s)]
@@ -43,20 +57,22 @@ Expected(e) ==
     [] e.a = "RemoveSheet" -> [books EXCEPT ![e.w] = RemoveSheetB(@)]
     [] e.a = "Clone"       -> Append(books, books[e.w])
     [] e.a = "Save"        -> books
-    [] e.a = "Reload"      -> Append(books, [text |-> files[e.w][1].text, has2 |-> files[e.w][1].has2, tbl |-> 1])
+    [] e.a = "Reload"      -> Append(books, LoadedB(files[e.w][1], e.lazy, 1))
+    [] e.a = "ReadSheet"   -> [books EXCEPT ![e.w] = ReadSheetB(@, e.sh)]
 InContract(e) ==
-  /\ e.a \in {"SetText", "Delete", "RemoveRow", "RemoveSheet", "Clone", "Save", "Reload"}
+  /\ e.a \in {"SetText", "Delete", "RemoveRow", "RemoveSheet", "Clone", "Save", "Reload", "ReadSheet"}
   /\ e.w \in DOMAIN books
   /\ (e.a = "SetText" => (<<e.sh, e.r>> \in Cells /\ (e.sh = 2 => books[e.w].has2)))
   /\ (e.a = "Delete" => (<<e.sh, e.r>> \in Cells /\ (e.sh = 2 => books[e.w].has2)))
   /\ (e.a = "RemoveSheet" => books[e.w].has2)
   /\ (e.a = "Reload" => files[e.w] # <<>>)
+  /\ (e.a = "ReadSheet" => e.sh \in books[e.w].raw)
 
 Ev == Rec[l]
 Step(e) ==
   IF e.a = "Fatal" THEN UNCHANGED <<books, files>> /\ Mismatch(l, <<"impl", "fatal", e.outcome>>)
   ELSE IF e.a = "Init"
-  THEN /\ books' = <<[text |-> EmptyText, has2 |-> TRUE, tbl |-> 1]>> /\ files' = <<<<>>>>
+  THEN /\ books' = <<NewBook>> /\ files' = <<<<>>>>
        /\ IF e.outcome = "ok" /\ ObsMatches(books', e.texts) THEN TRUE ELSE Mismatch(l, <<"init">>)
   ELSE IF ~InContract(e)
   THEN books' = Resync(e.texts) /\ files' = [i \in DOMAIN e.texts |-> IF i \in DOMAIN files THEN files[i] ELSE <<>>]
@@ -65,13 +81,16 @@ Step(e) ==
        /\ IF e.outcome = "ok" /\ ObsMatches(want, e.texts)
              /\ (e.a = "Save" => ViewOK(e.view, books[e.w]))
           THEN books' = want
+          ELSE IF e.outcome = "ok" /\ ObsMatches(want, e.texts) /\ e.a = "Save" /\ KFOn("C12-KF1")
+                  /\ KF1Trigger(books[e.w]) /\ ViewKF1(e.view, books[e.w])
+          THEN books' = want /\ KFHit("C12-KF1", l)
           ELSE /\ books' = Resync(e.texts)
                /\ Mismatch(l, <<"impl", e.a, e.outcome,
                                IF e.a = "Save" /\ e.outcome = "ok"
                                THEN <<"reachable", Reach(books[e.w]), "present", e.view.present, "sst", e.view.sst,
                                       "part/rel/ct", e.view.has_part, e.view.has_rel, e.view.has_ct>>
                                ELSE <<"texts">> >>)
-       /\ files' = IF e.a = "Save" THEN [files EXCEPT ![e.w] = <<FileOf(books[e.w], {})>>]
+       /\ files' = IF e.a = "Save" /\ e.outcome = "ok" THEN [files EXCEPT ![e.w] = <<FileOf(books[e.w], ToSet(e.view.sst))>>]
                    ELSE IF e.a \in {"Clone", "Reload"} THEN Append(files, <<>>) ELSE files
 
 TraceInit == l = 1 /\ books = <<>> /\ tables = <<>> /\ files = <<>> /\ last = [op |-> "init", w |-> 1]
